@@ -290,12 +290,22 @@ func (o *Optimizer) OptimizeStatements(stmts []ast.Statement) []ast.Statement {
 			}
 
 			// Not a constant condition - optimize both branches
+			// (each starts from a copy of the facts that hold at the condition)
 			optimized := &ast.IfStatement{
 				Condition: condition,
-				ThenBlock: o.OptimizeStatements(s.ThenBlock),
-				ElseBlock: o.OptimizeStatements(s.ElseBlock),
+				ThenBlock: o.fork().OptimizeStatements(s.ThenBlock),
+				ElseBlock: o.fork().OptimizeStatements(s.ElseBlock),
 			}
 			result = append(result, optimized)
+
+			// Only one branch runs: after the merge nothing is known about the
+			// variables either of them assigns
+			for varName := range getModifiedVariables(s.ThenBlock) {
+				o.forgetVariable(varName)
+			}
+			for varName := range getModifiedVariables(s.ElseBlock) {
+				o.forgetVariable(varName)
+			}
 
 		case *ast.WhileStatement:
 			// First, invalidate constants for any variables modified in the loop body
@@ -346,6 +356,12 @@ func (o *Optimizer) OptimizeStatements(stmts []ast.Statement) []ast.Statement {
 				Body:      o.OptimizeStatements(loopBody),
 			}
 			result = append(result, optimized)
+
+			// The body may not have run at all: what it established about the
+			// variables it assigns does not hold after the loop
+			for varName := range modifiedVars {
+				o.forgetVariable(varName)
+			}
 
 		case *ast.ForStatement:
 			// Invalidate constants for any variables modified in the for loop body
@@ -445,6 +461,22 @@ func (o *Optimizer) OptimizeStatements(stmts []ast.Statement) []ast.Statement {
 	}
 
 	return result
+}
+
+// fork returns an optimizer that starts from a copy of the current facts;
+// what it learns stays with it.
+func (o *Optimizer) fork() *Optimizer {
+	f := NewOptimizer(o.level)
+	for k, v := range o.constants {
+		f.constants[k] = v
+	}
+	for k, v := range o.expressions {
+		f.expressions[k] = v
+	}
+	for k, v := range o.copies {
+		f.copies[k] = v
+	}
+	return f
 }
 
 // forgetVariable drops every fact that involves the variable: its constant
